@@ -396,3 +396,54 @@ Proof.
   destruct (somes (Some m :: r)) as [l'|] eqn:Es; [|discriminate].
   exact (somes_no_None _ _ Es).
 Qed.
+
+(* ---- downstream of route: the destination chain's message handler --------------------------- *)
+
+Lemma receive_some : forall h l, (forall m, In m l -> h m <> RPanic) ->
+  exists w, receive h l = Some w /\ (forall m, In m l -> h m = RProp -> In m w) /\ (forall m, In m w -> In m l /\ h m = RProp).
+Proof.
+  intros h l. induction l as [|x r IH]; intros Hnp; cbn [receive].
+  - exists []. split; [reflexivity|]. split; [intros m []|intros m []].
+  - destruct (IH (fun m Hm => Hnp m (or_intror Hm))) as [w [Hw [Hin Hout]]].
+    destruct (h x) eqn:E.
+    + rewrite Hw. exists (x :: w). split; [reflexivity|]. split.
+      * intros m [<-|Hm] Hp; [left; reflexivity | right; exact (Hin m Hm Hp)].
+      * intros m [<-|Hm]; [split; [left; reflexivity | exact E]|].
+        destruct (Hout m Hm) as [H1 H2]. split; [right; exact H1 | exact H2].
+    + exists w. split; [exact Hw|]. split.
+      * intros m [<-|Hm] Hp; [rewrite E in Hp; discriminate | exact (Hin m Hm Hp)].
+      * intros m Hm. destruct (Hout m Hm) as [H1 H2]. split; [right; exact H1 | exact H2].
+    + exfalso. exact (Hnp x (or_introl eq_refl) E).
+Qed.
+
+Lemma receive_panic : forall h l m, In m l -> h m = RPanic -> receive h l = None.
+Proof.
+  intros h l. induction l as [|x r IH]; intros m Hin Hp; [destruct Hin|].
+  cbn [receive]. destruct Hin as [<-|Hin].
+  - rewrite Hp. reflexivity.
+  - rewrite (IH m Hin Hp). destruct (h x); reflexivity.
+Qed.
+
+(* a batch of the model none of whose messages makes the destination's handler panic is survived by
+   route, and every message of it that the handler turns into a proposal is written - whatever the
+   handler does with the others (a garbage message the handler refuses takes no neighbour with it) *)
+Lemma route_h_delivers : forall h p es g k l,
+  run p es = Done g -> In (k, l) g -> (forall m, In m l -> h m <> RPanic) ->
+  exists w, route_h h (map Some l) = Delivered k w /\
+    (forall m, In m l -> h m = RProp -> In m w) /\ (forall m, In m w -> In m l /\ h m = RProp).
+Proof.
+  intros h p es g k l H Hin Hnp. unfold route_h. rewrite (groups_routed p es g k l H Hin).
+  destruct (receive_some h l Hnp) as [w [Hw Hrest]]. rewrite Hw. exists w. split; [reflexivity | exact Hrest].
+Qed.
+
+(* one message on which the handler panics, anywhere in the batch: the route goroutine dies (and the
+   process with it), nothing of the batch is written - that is why the judge rejects any handler panic *)
+Lemma route_h_panics : forall h p es g k l m,
+  run p es = Done g -> In (k, l) g -> In m l -> h m = RPanic -> route_h h (map Some l) = RoutePanic.
+Proof.
+  intros h p es g k l m H Hin Hm Hp. unfold route_h. rewrite (groups_routed p es g k l H Hin).
+  rewrite (receive_panic h l m Hm Hp). reflexivity.
+Qed.
+
+Lemma down_ok_sound : forall hp, down_ok hp = true -> forall x, ~ In x hp.
+Proof. intros hp H x Hin. destruct hp; [destruct Hin | discriminate]. Qed.
